@@ -75,6 +75,12 @@ T["C06"] = dict(
     technique="TLA+ syntax machines + TLC design theorem; spec->code replay of texts (postfix) and of meaning (degrees)",
     ref="6. C06")
 
+T["C19"] = dict(
+    text="spec/Readiness.tla writes the documented readiness errors over engine descriptions; spec/MC_Readiness.tla checks with TLC, for 9 base engines and every subset of their removable operators (conjunction/disjunction/implication per block, aggregation/defuzzifier per output) on finite rows, that ReadyErrors = {} with activation methods present implies Engine.tla's process does not meet a missing operator, and that an operator whose removal alone makes processing raise is reported; the variant with the disjunction test nested under the conjunction test (the pinned code's shape) is the canary and TLC produces its ready-but-raises counterexample. Every configuration is replayed: is_ready's messages mapped to (operator, component) tags vs the model's set, process() raising or not on every row.",
+    note="Engines are well typed and keep their activation methods (assumptions of the property); over-reporting by the code is not an alarm.",
+    technique="TLA+ specification + TLC exhaustive subset enumeration with canary; spec->code replay",
+    ref="6. C19")
+
 PLANNED = {}
 
 def main():
